@@ -5,6 +5,7 @@ import (
 	cmap "github.com/orcaman/concurrent-map/v2"
 	"github.com/qdm12/reprint"
 	"sort"
+	"sync"
 
 	"github.com/markusressel/fan2go/internal/configuration"
 )
@@ -35,6 +36,10 @@ const (
 
 var (
 	fanMap = cmap.New[Fan]()
+
+	// valueMu guards the cached Pwm, Rpm and RpmMovingAvg values of all fans, which
+	// are updated by the fan controller, the rpm monitor and the statistics collectors
+	valueMu sync.Mutex
 )
 
 type Fan interface {
